@@ -197,6 +197,7 @@ class AtomicEngine(Engine):
             "prelude": rng.choice([0, 1, 2, 3]),
             # sometimes the undo list is already full when the victim is performed
             "limit": rng.choice([32, 32, 1, 2, 3]),
+            "suffixless_p": rng.choice([0.0, 0.0, 0.3]),
         }
         if rng.random() < 0.25:
             # victim = a real refactoring on a small multi-module program
